@@ -1,2 +1,3 @@
 pub mod c19;
 pub mod c09;
+pub mod c12;
